@@ -95,6 +95,12 @@ func (n *simNode) Run(ctx context.Context) {
 		case msg := <-n.messages:
 			n.d.OnReceive(msg)
 		}
+
+		// A block was accepted for the current height: it's the caller's duty to
+		// start the next one (the previous block's timestamp is still in the context).
+		if n.height == n.d.BlockIndex {
+			n.d.Reset(n.d.Timestamp)
+		}
 	}
 }
 
